@@ -127,7 +127,7 @@ func (w *World) PropertyFunctions(prop string) (tagged []string, all []string) {
 		if c.Kind != "func" && c.Kind != "lemma" && c.Kind != "spec" && c.Kind != "closure" {
 			return
 		}
-		if c.Flags["assumed"] {
+		if c.Flags["assumed"] || c.Flags["opaque"] {
 			return
 		}
 		seen[k] = true
